@@ -436,7 +436,7 @@ def _build(fn, *a):
 
 
 def regen(snap):
-    """coq/Gen/FitnessOps.v from the snapshot's fitness.tcc / model_measurements.h"""
+    """coq/Gen/FitnessOps.v from the snapshot's fitness.tcc / model_measurements.h / utility.h"""
     text, problems = fitness_ops.generate(snap)
     if problems:
         # outside the recognised subset: the last good description (checked in as gen/c18_FitnessOps.fallback.v)
@@ -467,8 +467,9 @@ def run(ck):
             ck.coverage.setdefault("coqchk", {})[pf] = {"ok": ok_chk, "axioms": axioms}
             if not ok_chk:
                 ck.add_unshown("coqchk", pf, tail)
-    ck.trusted += ["translate/fitness_ops.py (how fitness.tcc / model_measurements.h derive each relational operator, "
-                   "dominating and model_measurements >=) and coq/Fitness/FitnessSrc.v as the meaning of its output",
+    ck.trusted += ["translate/fitness_ops.py (how fitness.tcc / model_measurements.h / utility.h derive each relational operator, "
+                   "dominating, model_measurements >=, and which loop applies which per-element expression in the "
+                   "arithmetic, lifts, distance, combine, scalar round_to) and coq/Fitness/FitnessSrc.v as the meaning of its output",
                    "coq/Base/F64.v: Flocq 4.1 BinarySingleNaN (prec 53, emax 1024, RNE) as the meaning of double; "
                    "std::round = Bnearbyint mode_NA, std::sqrt = Bsqrt, std::fabs/abs = Babs",
                    "hand-written model coq/Fitness/FitnessDefs.v (tied by correspondence only)",
